@@ -8,6 +8,7 @@ import (
 	"math"
 	"os"
 	"reflect"
+	"regexp"
 	"runtime"
 	"strings"
 	"time"
@@ -618,6 +619,19 @@ func c14Ctx(cs *C14Case, r *c14Result) map[string]interface{} {
 		"colmajor":        strings.HasPrefix(cs.Layout, "col"), "colvec": colvec, "rowvec": rowvec, "extreme_values": b.F >= 1000, "detail": r.detail, "direct": cs.Direct}
 }
 
+var digitsRE = regexp.MustCompile(`[0-9]+`)
+
+// c14ClassKey identifies a violation class finely enough that every KNOWN_FINDINGS predicate gives
+// the same answer for all members: the worker keeps one representative replay file per class.
+func c14ClassKey(v *Violation) string {
+	x := v.Ctx
+	d := digitsRE.ReplaceAllString(fmt.Sprint(x["detail"]), "N")
+	if len(d) > 90 {
+		d = d[:90]
+	}
+	return fmt.Sprintf("%s|%v|%v|%v|%v|%v|%v|%s", v.Kind, x["format"], x["dtype"], x["rank"], x["layout"], x["masked"], x["colvec"], d)
+}
+
 func isViolationC14(outcome string) bool {
 	switch outcome {
 	case "refused", "equal", "probe", "unjudgeable":
@@ -629,8 +643,20 @@ func isViolationC14(outcome string) bool {
 func workC14(res *WorkerResult, start time.Time) {
 	st := &C14Stats{Outcomes: map[string]uint64{}, PerFormat: map[string]uint64{}, Layouts: map[string]uint64{}, Probe: map[string]uint64{},
 		FaultsInjected: map[string]uint64{}, Distinct: map[uint64]struct{}{}}
+	classIdx := map[string]int{}
+	keep := func(rf *ReplayFile) {
+		k := c14ClassKey(rf.Violation)
+		if i, ok := classIdx[k]; ok {
+			res.Violations[i].Count++
+			return
+		}
+		rf.Count = 1
+		classIdx[k] = len(res.Violations)
+		res.Replays = append(res.Replays, saveReplay(rf))
+		res.Violations = append(res.Violations, *rf)
+	}
 	for i := uint64(0); i < *flagRuns; i++ {
-		if overBudget(start) {
+		if overBudget(start) || len(res.Violations) >= 4000 {
 			break
 		}
 		run := *flagFirst + i
@@ -701,13 +727,7 @@ func workC14(res *WorkerResult, start time.Time) {
 						cs.Format, cs.Build[0].S, cs.Layout, cs.PipeCap, cs.MaxChunk, r.pipe.shortReads, r.outcome, r.detail, q.outcome, q.detail)}
 				v.Ops = []string{cs.Format, cs.Layout, "delivery"}
 				v.Ctx = c14Ctx(cs, r)
-				rf := ReplayFile{Property: "C14", Violation: v, Seed: *flagSeed, Run: run, Tags: *flagTags, C14: cs}
-				path := saveReplay(&rf)
-				res.Violations = append(res.Violations, rf)
-				res.Replays = append(res.Replays, path)
-				if len(res.Violations) >= *flagMaxViol {
-					break
-				}
+				keep(&ReplayFile{Property: "C14", Violation: v, Seed: *flagSeed, Run: run, Tags: *flagTags, C14: cs})
 				continue
 			}
 		}
@@ -737,13 +757,7 @@ func workC14(res *WorkerResult, start time.Time) {
 			fmt.Fprintf(os.Stderr, "tsim: C14 run %d: case did not reproduce (%s vs %s) (harness defect)\n", run, rr.outcome, r.outcome)
 			os.Exit(2)
 		}
-		rf := ReplayFile{Property: "C14", Violation: v, Seed: *flagSeed, Run: run, Tags: *flagTags, C14: &mc}
-		path := saveReplay(&rf)
-		res.Violations = append(res.Violations, rf)
-		res.Replays = append(res.Replays, path)
-		if len(res.Violations) >= *flagMaxViol {
-			break
-		}
+		keep(&ReplayFile{Property: "C14", Violation: v, Seed: *flagSeed, Run: run, Tags: *flagTags, C14: &mc})
 	}
 	runtime.KeepAlive(st)
 	res.Distinct = keysOf(st.Distinct)
